@@ -6,9 +6,9 @@ from bounded import wave_parts
 def run(tier, seed):
     res = PropertyResult('C06', 'other', '')
     try:
-        from contracts import wave_comp_c, wave_kernels_c
+        from contracts import wave_comp_c, wave_kernels_c, alloc_c, graph_c, simops_c
         from pyvc.verify import verify
-        res.report = verify(wave_kernels_c.targets_c06() + wave_comp_c.targets_cuda() + wave_comp_c.targets_cuda_io(), timeout_s=20 if tier == 'quick' else 120)
+        res.report = verify(wave_kernels_c.targets_c06() + wave_comp_c.targets_cuda() + wave_comp_c.targets_cuda_io() + alloc_c.targets() + graph_c.targets_stems() + simops_c.targets(), timeout_s=20 if tier == 'quick' else 120)
     except ImportError:
         res.report = None
     res.explanation = ('Tier P (unbounded): lane independence is part of the kernel contracts -- every access of _wave_eval, wave_capture_cpu/gpu, wave_assign_gpu to '
@@ -17,7 +17,8 @@ def run(tier, seed):
                        'Tier B (bounded): bit-identity of port-level results across {c_reuse} x {strip_forks} x {WaveSim, WaveSimCuda}, allocated lanes, lane permutations, '
                        'c_prop(sims=k), delay-dataset selection modes and LogicSim options on a stated circuit space.')
     res.bounded = [wave_parts.part_c06(tier, seed)]
-    res.assumptions = ['relational clauses (option / location independence) are bounded evidence only (no product-program mode in pyvc)',
+    res.assumptions = ['the memory map behind c_reuse / strip_forks (levelisation, reference-counted allocation with deferred release, stems, aliasing) is under the contracts of C07 / C08, re-verified here; that two option settings give bit-identical port results is a relational clause',
+                       'relational clauses (option / location independence) are bounded evidence only (no product-program mode in pyvc)',
                        'mock GPU only: numba compilation and a physical GPU are absent from the sandbox',
                        'float32 arithmetic exact on the dyadic grid used by the stimuli']
     res.trusted_base = ['pyvc', 'z3 5.1.0', 'bounded/wave_parts.py, bounded/wave_drv.py']
